@@ -71,8 +71,8 @@ CHECKS = {
             'Context: inside run() self.context equals filter_context(lab.context) for every DAG shape n<=3 x identity/per-parameter filters x 3 contexts x cold/pre-cached, on the coordinator seam, the real SerialRunner and the real fork/spawn ProcessRunner over the virtual OS; keys and every stored byte are identical under two different contexts (fixed clock) and a sentinel context value occurs in no stored file. Process model: the start method requested for every virtual worker, and real serial/fork/spawn runs x max_workers x DAG reporting pid, parent pid, thread, start method and a parent-mutated module global from inside run().',
             'The process model is observable only on real processes: an enumerated finite list of real runs.', 'E2+E3+E4', '5/C16'),
     'C14': (FE, 'exhaustive interrupt-point enumeration (sys.monitoring LINE events) layered on schedule exploration of the real runners over the virtual OS',
-            'KeyboardInterrupt is raised at the k-th labtech line executed by the calling thread during run_tasks, for every k, on the real SerialRunner and on the real fork/spawn ProcessRunner over the virtual multiprocessing layer (deterministic, so process-backend line points are enumerated rather than sampled) x every schedule within the deviation bound; double interrupts with the first at one representative event per distinct source line and the second at each following event. Oracle: KeyboardInterrupt leaves run_tasks, nothing is started after the interrupt, workers executing at the interrupt are never terminated and their results are cached, the cache stays consistent, no endless polling; after a second interrupt every executing worker is terminated before any further wait.',
-            'Line (not bytecode) granularity; interrupts only in labtech frames of the calling thread; the virtual layer runs workers eagerly, so the real race between fork and the worker ignoring SIGINT is outside the model; quick tier samples the first point of doubles.', 'E1+E3+E6', '5/C14'),
+            'KeyboardInterrupt is raised at the k-th labtech line executed by the calling thread during run_tasks, for every k, on the real SerialRunner and on the real fork/spawn ProcessRunner over the virtual multiprocessing layer (deterministic, so process-backend line points are enumerated rather than sampled) x every schedule within the deviation bound; double interrupts with the first at one representative event per distinct source line and the second at each following event; threaded slice: the result-consumer helper thread runs as a real thread under a baton scheduler (every thread switch an explorer choice, preemption bound 2 quick / 3 thorough), interrupts at every position where the helper is alive, so that a consumer left running by an interrupt on join() is interleaved with the rest of the shutdown. Oracle: KeyboardInterrupt leaves run_tasks, nothing is started after the interrupt, workers executing at the interrupt are never terminated and their results are cached, the cache stays consistent, no endless polling; after a second interrupt every executing worker is terminated before any further wait.',
+            'Line (not bytecode) granularity (line events that only announce the exit of a with block or a NOP such as `try:` are excluded: nothing can be raised there); interrupts only in labtech frames of the calling thread; the virtual layer runs workers eagerly, so the real race between fork and the worker ignoring SIGINT is outside the model; quick tier samples the first point of doubles.', 'E1+E3+E6', '5/C14'),
 }
 
 PENDING = {
